@@ -8,11 +8,13 @@
    with ANY values of the RTT-filter inputs (loss_delay, smoothed_rtt, rttvar, pacer refill) at
    every step.  The floating-point RTT filter is an input by design (level: partial).
 
-   Four clauses of the property are refuted on the faithful model; each has a [_refuted] witness
-   (the same histories replay on the real controller, corpus/C13/cc) and a conditional theorem. *)
+   Two clauses of the property are refuted on the faithful model (F15, F25: open findings); each
+   has a [_refuted] witness (the same histories replay on the real controller, corpus/C13/cc) and
+   a conditional theorem.  F16 and F17 were repaired (`fix:` commits); their clauses are proved at
+   full strength on the model of the fixed code and the former witnesses are regression cases. *)
 From Coq Require Import List ZArith Bool.
 From GQ Require Import Model.NewReno Model.LossDetect Model.Pto
-  Proofs.NewReno Proofs.LossDetect Proofs.Pto Proofs.CcSteps Proofs.CcTrace.
+  Proofs.NewReno Proofs.LossDetect Proofs.Pto Proofs.CcSteps Proofs.CcTrace Proofs.CcOnce Proofs.CcRun.
 Import ListNotations.
 Local Open Scope Z_scope.
 
@@ -54,6 +56,32 @@ Proof.
   intros m r H. split; [intros; now apply congestion_event_in_recovery|].
   split; [intros; now apply congestion_event_once|]. intros lost now. exact (on_packets_lost_single m r lost now H).
 Qed.
+
+(* per operation, over every history: in every reachable state an operation whose detection pass
+   does not raise the `persistent` flag (outside the class of F25) takes at most ONE datagram off the
+   window — also when the same ACK carries a new ECN-CE mark and triggers losses *)
+Theorem c13_once_per_rtt_step : forall c ri o, reach c -> op_ok o ->
+  o_pers (snd (cc_step c ri o)) = false ->
+  Z.max (cwnd (c_reno c) - c_mtu c) (2 * c_mtu c) <= cwnd (c_reno (fst (cc_step c ri o))).
+Proof. exact p_c13_once_per_rtt_step. Qed.
+
+(* every Inflight packet was sent no later than the current time (the invariant used above) *)
+Theorem c13_sent_in_the_past : forall c, reach c ->
+  forall e p, In p (s_sent (c_sp c e)) -> is_inflight p = true -> p_time p <= c_now c.
+Proof. exact reach_InvD. Qed.
+
+(* the stream entry point: every state visited by run_cc on a wire-form operation list (clock
+   advances not negative, positive MTU) is reachable, so every theorem above applies to the state
+   behind every observation line the extracted model prints *)
+Theorem c13_run_reach : forall cfg l,
+  (match cfg with [_; mtu; mad_us] => 0 < mtu /\ 0 <= mad_us | _ => True end) ->
+  Forall wire_ok l ->
+  let c0 := match cfg with
+            | [role; mtu; mad_us] => cc_new (negb (role =? 0)) mtu (mad_us * 1000)
+            | _ => cc_new false 1200 25000000
+            end in
+  run_cc cfg l = cc_run c0 l /\ reach c0 /\ Forall reach (cc_states c0 l).
+Proof. exact p_c13_run_reach. Qed.
 
 (* F25 — REFUTED at full strength: with the `persistent` flag (3 index-consecutive losses in one
    pass) the same loss event reduces twice (12000 -> 10800 -> 5400) and closes the recovery period *)
@@ -105,19 +133,13 @@ Theorem c13_loss_rule_refuted :
               s_la (c_sp c 2) = None /\ cwnd (c_reno c) = 10800.
 Proof. exact p_c13_loss_needs_later_ack_refuted. Qed.
 
-(* F17 — REFUTED: successive PTO intervals do not double ... *)
-Theorem c13_pto_doubles_refuted :
-  exists ri k, 0 <= k /\ 0 <= i_srtt ri /\ 0 <= i_rttvar ri /\ base_pto ri (k + 1) <> 2 * base_pto ri k.
-Proof. exact p_c13_pto_doubles_refuted. Qed.
-
-(* ... except outside the class (smoothed_rtt = 0); for every input the backed-off term doubles
-   and the interval strictly grows *)
-Theorem c13_pto_doubles : forall ri k, 0 <= k -> ~ F17_class ri -> 0 <= i_srtt ri ->
-  base_pto ri (k + 1) = 2 * base_pto ri k.
+(* successive PTO intervals double, for every value of the RTT inputs (F17 fixed by b1af7bb:
+   base_pto = (smoothed_rtt + max(4*rttvar, 1ms)) * 2^pto_count), and are positive and strictly growing *)
+Theorem c13_pto_doubles : forall ri k, 0 <= k -> base_pto ri (k + 1) = 2 * base_pto ri k.
 Proof. exact p_c13_pto_doubles. Qed.
 
-Theorem c13_pto_backoff : forall ri k, 0 <= k -> 0 <= i_rttvar ri ->
-  base_pto ri (k + 1) - i_srtt ri = 2 * (base_pto ri k - i_srtt ri) /\ base_pto ri k < base_pto ri (k + 1).
+Theorem c13_pto_backoff : forall ri k, 0 <= k -> 0 <= i_srtt ri ->
+  0 < base_pto ri k /\ base_pto ri k < base_pto ri (k + 1).
 Proof. exact p_c13_pto_backoff. Qed.
 
 (* an expired timer either reports every over-age Inflight packet of the earliest-loss-time space
@@ -145,26 +167,40 @@ Theorem c13_too_many_ptos : forall c ri,
   (o_result out = 1 -> c_dead c' = true).
 Proof. exact p_c13_too_many_ptos. Qed.
 
-(* F16 — REFUTED: the quota is the pacer bucket alone; a burst admitted by it takes
-   bytes_in_flight to 14400 with a window of 12000 *)
-Theorem c13_send_within_window_refuted :
-  let '(c, outs) := run_ops (cc_new true 1200 25000000) f16_history in
-  exists out, nth_error outs 13 = Some out /\ o_result out = 12000 /\
-              bif (c_reno c) = 14400 /\ cwnd (c_reno c) = 12000.
-Proof. exact p_c13_send_within_window_refuted. Qed.
-
-(* conditional: a burst that fits in the room the window leaves (the test the code does not
-   make) never takes bytes_in_flight above the window *)
-Theorem c13_send_within_window : forall c ri l, reach c ->
+(* the sender does not add in-flight bytes beyond the window (F16 fixed: send_quota =
+   min(pacer tokens, cwnd - bytes_in_flight)): after any history, if send_quota grants a positive
+   quota while no PTO probe is pending, every burst whose in-flight bytes fit in the quota leaves
+   bytes_in_flight <= cwnd *)
+Theorem c13_send_within_window : forall c ri ri' l, reach c -> probe_pending c = false ->
+  0 < o_result (snd (cc_step c ri OpQuota)) ->
   Forall (fun x => In (fst (fst (fst (fst x)))) epochs) l ->
-  bif (c_reno c) + burst_bytes l <= cwnd (c_reno c) ->
-  bif (c_reno (burst c ri l)) <= cwnd (c_reno (burst c ri l)).
+  burst_bytes l <= o_result (snd (cc_step c ri OpQuota)) ->
+  let c' := burst (fst (cc_step c ri OpQuota)) ri' l in
+  bif (c_reno c') <= cwnd (c_reno c').
 Proof. exact p_c13_send_within_window. Qed.
 
-Theorem c13_quota_is_bucket : forall c ri,
-  snd (cc_send_quota c ri) = pc_tokens (c_pacer (fst (cc_send_quota c ri))) /\
+(* except probes (RFC 9002 7.5): with a probe pending the overshoot is at most one datagram *)
+Theorem c13_probe_overshoot : forall c ri ri' l, reach c ->
+  0 < o_result (snd (cc_step c ri OpQuota)) ->
+  Forall (fun x => In (fst (fst (fst (fst x)))) epochs) l ->
+  burst_bytes l <= o_result (snd (cc_step c ri OpQuota)) ->
+  let c' := burst (fst (cc_step c ri OpQuota)) ri' l in
+  bif (c_reno c') <= Z.max (cwnd (c_reno c')) (bif (c_reno c) + c_mtu c).
+Proof. exact p_c13_probe_overshoot. Qed.
+
+Theorem c13_quota_bound : forall c ri,
+  snd (cc_send_quota c ri) <= window_room c /\
+  snd (cc_send_quota c ri) <= pc_tokens (c_pacer (fst (cc_send_quota c ri))) /\
   c_reno (fst (cc_send_quota c ri)) = c_reno c.
-Proof. exact quota_is_bucket. Qed.
+Proof. exact quota_bound. Qed.
+
+(* the former F16 witness as a regression: the second quota request is refused *)
+Example c13_f16_regression :
+  let '(c, outs) := run_ops (cc_new true 1200 25000000) f16_history in
+  exists o1 o13, nth_error outs 1 = Some o1 /\ o_result o1 = 12000 /\
+              nth_error outs 13 = Some o13 /\ o_result o13 = -1 /\
+              bif (c_reno c) = 12000 /\ cwnd (c_reno c) = 12000 /\ pc_tokens (c_pacer c) = 12000.
+Proof. exact p_c13_f16_regression. Qed.
 
 (* non-vacuity: a history over three spaces with an ACK of two ranges, a packet-threshold loss, a
    discard and a tick is reachable and satisfies the invariants *)
@@ -178,17 +214,20 @@ Print Assumptions c13_bif_exact.
 Print Assumptions c13_cwnd_min.
 Print Assumptions c13_grow_only_on_ack_outside_recovery.
 Print Assumptions c13_once_per_rtt.
+Print Assumptions c13_once_per_rtt_step.
+Print Assumptions c13_sent_in_the_past.
+Print Assumptions c13_run_reach.
 Print Assumptions c13_once_per_rtt_refuted.
 Print Assumptions c13_acked_never_lost.
 Print Assumptions c13_acked_never_lost_trace.
 Print Assumptions c13_loss_rule.
 Print Assumptions c13_loss_rule_refuted.
-Print Assumptions c13_pto_doubles_refuted.
 Print Assumptions c13_pto_doubles.
 Print Assumptions c13_pto_backoff.
 Print Assumptions c13_probe_or_resolve.
 Print Assumptions c13_too_many_ptos.
-Print Assumptions c13_send_within_window_refuted.
 Print Assumptions c13_send_within_window.
-Print Assumptions c13_quota_is_bucket.
+Print Assumptions c13_probe_overshoot.
+Print Assumptions c13_quota_bound.
+Print Assumptions c13_f16_regression.
 Print Assumptions c13_nonvacuous.
